@@ -61,6 +61,34 @@ def configs(tier):
                                     fail_src={nn - 1: 'KeyError'}))
                     out.append(dict(entry='parmap', n=nn, w=w, b=b, backend=backend, fail_fn={nn - 1: 'ValueError'},
                                     fail_src={1: 'KeyError'}, mode='items'))
+    # the smallest streams: one or two examples, every subset failing (shortcuts for short inputs)
+    for nn in (1, 2):
+        for F in subsets(nn):
+            for exc in ('FilterException', 'ValueError'):
+                for catch in (None, True, ['ValueError']):
+                    out.append(dict(entry='prefetch', n=nn, w=1, b=1, fail_fn={i: exc for i in F}, catch=catch))
+                    for backend in ['t', 'mp', 'dill_mp', 'multiprocessing', 'concurrent_mp']:
+                        if catch is not None and backend in ('multiprocessing', 'concurrent_mp'):
+                            continue
+                        out.append(dict(entry='prefetch', n=nn, w=2, b=2, backend=backend, fail_fn={i: exc for i in F},
+                                        catch=catch))
+                        if backend != 't' and len(F) == 1:
+                            out.append(dict(entry='prefetch', n=nn, w=1, b=1, backend=backend, fail_fn={i: exc for i in F},
+                                            catch=catch))
+                if exc == 'ValueError':
+                    for backend in ('t', 'dill_mp'):
+                        out.append(dict(entry='parmap', n=nn, w=2, b=2, backend=backend, fail_fn={i: exc for i in F}))
+    # a regrouping stage between the failing function and the prefetch: the batch fails as a whole, at its position,
+    # also when the function raises an exception class that the stages use themselves (IndexError ends a batch lookup)
+    for nn in (2, 3, 4):
+        for p in range(nn):
+            for exc in ('IndexError', 'ValueError', 'AssertionError'):
+                for catch in (None, [exc]):
+                    for w, b, backend in ((1, 1, 't'), (2, 2, 't'), (2, 2, 'dill_mp')):
+                        if tier == 'quick' and (exc == 'AssertionError' or (backend != 't' and nn != 4)):
+                            continue
+                        out.append(dict(entry='prefetch', n=nn, w=w, b=b, backend=backend, fail_fn={p: exc}, catch=catch,
+                                        pre=[['batch', 2]]))
     return out
 
 
